@@ -265,6 +265,19 @@ func doCall(cl *rpcw.Client, sc scenario, token string, payload []byte) callResu
 	return callResult{dur: time.Since(t0), class: rpcw.ErrClass(err), token: token, got: string(b)}
 }
 
+// doCallBounded is doCall under a watchdog: a call of the control batch that does not come back
+// must not take the monitor with it.
+func doCallBounded(cl *rpcw.Client, sc scenario, token string, payload []byte) callResult {
+	ch := make(chan callResult, 1)
+	go func() { ch <- doCall(cl, sc, token, payload) }()
+	select {
+	case r := <-ch:
+		return r
+	case <-time.After(bound(sc) + 20*time.Second):
+		return callResult{dur: bound(sc) + 20*time.Second, class: "never-returned", token: token}
+	}
+}
+
 func newClient(sc scenario, addr string) *rpcw.Client {
 	o := rpcw.Opt{DialTimeout: time.Duration(sc.DialMs) * time.Millisecond, WriteTimeout: time.Duration(sc.WriteMs) * time.Millisecond, ReadTimeout: 100 * time.Millisecond}
 	if sc.Fault == "never-read" {
@@ -409,17 +422,27 @@ func runScenario(sc scenario) {
 	// ---- control batch on the now healthy peer ----
 	p.makeHealthy()
 	ctl := scenario{ID: sc.ID, Fault: "healthy", Source: sc.Source, DeadlineMs: 3000, DialMs: sc.DialMs, WriteMs: sc.WriteMs}
+	hung := false
 	okAll := waitFor(func() bool {
-		r := doCall(cl, ctl, "warm", []byte("warm"))
-		return r.class == "ok"
+		r := doCallBounded(cl, ctl, "warm", []byte("warm"))
+		hung = hung || r.class == "never-returned"
+		return r.class == "ok" || hung
 	}, 15*time.Second)
+	if hung {
+		poisoned.Store(true)
+		run.Violation("call-never-returns", sc.Fault+":control-batch", fmt.Sprintf("a call on the healed peer did not return within %v (deadline 3000 ms); scenario %+v", bound(ctl)+20*time.Second, sc), wit(nil))
+		return
+	}
 	if !okAll {
-		run.Violation("no-recovery-after-fault", sc.Fault, fmt.Sprintf("the peer answers every request again but calls still fail 15 s later (last: %s); scenario %+v", doCall(cl, ctl, "x", []byte("x")).class, sc), wit(nil))
+		run.Violation("no-recovery-after-fault", sc.Fault, fmt.Sprintf("the peer answers every request again but calls still fail 15 s later (last: %s); scenario %+v", doCallBounded(cl, ctl, "x", []byte("x")).class, sc), wit(nil))
 		return
 	}
 	for i := 0; i < 20; i++ {
 		tok := fmt.Sprintf("ctl-%d-%d", sc.ID, i)
-		r := doCall(cl, ctl, tok, []byte(tok))
+		r := doCallBounded(cl, ctl, tok, []byte(tok))
+		if r.class == "never-returned" {
+			poisoned.Store(true)
+		}
 		if r.class != "ok" || r.got != tok {
 			run.Violation("control-call-disturbed", sc.Fault, fmt.Sprintf("control call %q on the healthy peer returned class=%s payload=%q; scenario %+v", tok, r.class, r.got, sc), wit(nil))
 			return
